@@ -45,6 +45,13 @@ impl Tier { pub fn scale(&self, quick: usize, thorough: usize) -> usize { if sel
 /// `gen <seed> <quick|thorough>` prints case lines; `run` maps case lines on stdin to result lines
 /// (order preserved, 16 threads, a panic becomes the line PANIC).
 pub fn main_cli(gen: fn(&mut Rng, &Tier, &mut Vec<String>), run: fn(&str) -> String) {
+    main_cli_post(gen, run, |_, m| m.to_string())
+}
+
+/// Same, plus `post <cases-file>`: maps MODEL result lines on stdin (paired with the case lines of the
+/// file) to final lines.  Used where the model leaves a step to a real library (e.g. prints the bytes that
+/// are hashed and the harness applies the real DefaultHasher / sha2).
+pub fn main_cli_post(gen: fn(&mut Rng, &Tier, &mut Vec<String>), run: fn(&str) -> String, post: fn(&str, &str) -> String) {
     let args: Vec<String> = std::env::args().collect();
     match args.get(1).map(|s| s.as_str()) {
         Some("gen") => {
@@ -78,6 +85,15 @@ pub fn main_cli(gen: fn(&mut Rng, &Tier, &mut Vec<String>), run: fn(&str) -> Str
             let mut w = std::io::BufWriter::new(stdout.lock());
             for r in results { writeln!(w, "{}", r.replace('\n', "\\n")).unwrap(); }
         }
-        _ => { eprintln!("usage: gen <seed> <tier> | run"); std::process::exit(2); }
+        Some("post") => {
+            let cases: Vec<String> = std::fs::read_to_string(&args[2]).unwrap().lines().map(|s| s.to_string()).collect();
+            let stdout = std::io::stdout();
+            let mut w = std::io::BufWriter::new(stdout.lock());
+            for (i, l) in std::io::stdin().lock().lines().enumerate() {
+                let l = l.unwrap();
+                writeln!(w, "{}", post(cases.get(i).map(|s| s.as_str()).unwrap_or(""), &l)).unwrap();
+            }
+        }
+        _ => { eprintln!("usage: gen <seed> <tier> | run | post <cases-file>"); std::process::exit(2); }
     }
 }
